@@ -35,7 +35,7 @@ SUBPROC_HELPERS = ("subproc_captured_hiddenobject", "subproc_captured_stdout", "
 
 
 class Tok:
-    __slots__ = ("type", "string", "a", "b", "line", "sline", "i", "brk", "fdepth", "macro", "first", "cmdpos", "macro_head_first")
+    __slots__ = ("type", "string", "a", "b", "line", "sline", "i", "brk", "fdepth", "macro", "first", "cmdpos", "macro_head_first", "quirk")
 
     def __repr__(self):
         return "Tok(%s %r %d:%d)" % (self.type, self.string, self.a, self.b)
@@ -114,7 +114,9 @@ def real_tokens(src):
             a = prev_end
         if b < a:
             b = a
+        k.quirk = False
         if t.type == xtok.COMMENT and k.string[:1] in (" ", "\t"):
+            k.quirk = True
             # tokenizer quirk: after a capture the COMMENT token may carry the blank(s) before the `#`
             lead = len(k.string) - len(k.string.lstrip(" \t"))
             a = min(a + lead, b)
@@ -666,6 +668,16 @@ def diff_flags(a, b, flags=None):
         if isinstance(c, tuple) and len(c) == 2 and c[0] == "Expr" and isinstance(c[1], tuple):
             c = dict(c[1]).get("value")          # an expression statement is what its value is
         h = _helper_name(c) if isinstance(c, tuple) and c else None
+        if h == "subproc_check_boolop":
+            # only a wrapper around the statement's value: look at what it wraps
+            try:
+                arg = dict(c[1]).get("args")[0]
+            except Exception:  # noqa: BLE001
+                arg = None
+            if isinstance(arg, tuple) and arg and arg[0] == "BoolOp":
+                vals = dict(arg[1]).get("values") or ()
+                return "subproc" if any(kind(v) == "subproc" for v in vals) else None
+            return kind(arg) if arg is not None else None
         if h:
             if h.startswith(("subproc_captured", "subproc_uncaptured")):
                 return "subproc"
